@@ -22,9 +22,15 @@
   with RFC 8950 next hops negotiated; the content of the merged AS_PATH (`merge_attributes`: C02/F16/F20),
   which is reported as the marker `merged`.
 
-  `Fix` switches on, one by one, the repairs proposed in /verif/proposed_fixes/F5…; `noFix` is the code as it
-  is, `allFix` the code with every repair. The driver takes the switches on the command line so that the
-  harness follows the tree as repairs land.
+  History: the first version of this model reproduced five defects of the tree as found (F5 marker ignored,
+  F6 overrun accepted, C08a NEXT_HOP of 16 bytes, C08c flag conflict without class, and C08b); four were
+  repaired in /repo (commits 2df5c0b, fe3650b, e0e6b78, cfd78d2) and the model now IS the repaired code. One
+  repair is still open and keeps its switch: `Fix.seg0` (C08b, an AS_PATH / AS4_PATH segment with no AS number is
+  accepted: proposed_fixes/c08b-aspath-empty-segment.md). `noFix` is the code as it is, `allFix` the code with
+  that repair; the driver takes the switch on the command line so that the harness follows the tree.
+  Also followed: 9af6928 (the four unused flag bits are masked on receipt), a0181bd (a 4-octet session drops
+  AS4_PATH instead of merging), 8779602 (GenericAttribute drops the Extended Length bit), fa02ec5 (loop, not
+  recursion).
 
   Reuses M-Wire (RFC reference, read-only): `Params`, `Flags.ofByte`, `decLen` (length field of one TLV),
   `decAsns`, `decNlris`, `decVal` (as the RFC value syntax inside `wfAttr`), `flagSpec`, `supported`.
@@ -137,26 +143,25 @@ def noPart (flag : Nat) : Nat := flag - b2n (flag / 32 % 2 == 1) 32
 /-- `aid in Attribute.attributes_optional`: some class registered for the id has the OPTIONAL bit. -/
 def optionalCode (tb : List Row) (code : Nat) : Bool := tb.any (fun r => r.id == code && r.flag / 128 % 2 == 1)
 
-/-- The flag the loop compares: PARTIAL removed when the code is an optional one. All eight bits of the
-    octet take part, the four unused ones included. -/
-def effFlag (tb : List Row) (t : Tlv) : Nat := if optionalCode tb t.code then noPart t.flag else t.flag
+/-- `data[0] & 0xF0`: the four unused bits are dropped on receipt (RFC 4271 §4.3). -/
+def maskLow (flag : Nat) : Nat := flag / 16 * 16
+
+/-- The flag the loop compares: the unused bits masked, PARTIAL removed when the code is an optional one. -/
+def effFlag (tb : List Row) (t : Tlv) : Nat :=
+  if optionalCode tb t.code then noPart (maskLow t.flag) else maskLow t.flag
 
 /-- `Attribute.registered(aid, flag)`. Generated rows carry FLAG without the Extended Length bit. -/
 def registered (tb : List Row) (code flag : Nat) : Bool := tb.any (fun r => r.id == code && r.flag == noExt flag)
 
 /-! ## The code: value decoders (accept / how they fail) -/
 
-/-- The repairs (see /verif/proposed_fixes). -/
+/-- The repair still open (see /verif/proposed_fixes/c08b-aspath-empty-segment.md). -/
 structure Fix where
-  assemble : Bool   -- F5: `_parse_payload` reports the routes of a treat-as-withdraw UPDATE as withdrawn
-  overrun  : Bool   -- F6: declared length > bytes left in the block → treat-as-withdraw, stop
-  nh4      : Bool   -- C08a: NEXT_HOP (code 3) of 16 bytes is refused (empty stays `NextHop.UNSET`: only an overrun gets there)
-  seg0     : Bool   -- C08b: an AS_PATH / AS4_PATH segment with no AS number is malformed
-  flagCls  : Bool   -- C08c: flag conflict on a known attribute that has neither class flag → NOTIFICATION 3/4
+  seg0 : Bool   -- C08b: an AS_PATH / AS4_PATH segment with no AS number is malformed
 deriving DecidableEq, Repr
 
-def noFix : Fix := ⟨false, false, false, false, false⟩
-def allFix : Fix := ⟨true, true, true, true, true⟩
+def noFix : Fix := ⟨false⟩
+def allFix : Fix := ⟨true⟩
 
 /-- Negotiated session, as far as attribute parsing depends on it. -/
 structure XP where
@@ -188,7 +193,7 @@ def exaSegs (seg0 : Bool) (w4 : Bool) : Nat → Bytes → Bool
     `Props/C08.lean` proves it is a sub-table of the generated `FamilyTable.familySize`. -/
 def mpNhLens : List (Nat × Nat × List Nat × Nat) :=
   [(1, 1, [4], 0), (1, 2, [4], 0), (1, 4, [4], 0), (1, 128, [12], 8),
-   (2, 1, [16, 32], 0), (2, 2, [16, 32], 0), (2, 4, [16, 32], 0), (2, 128, [24, 40], 8)]
+   (2, 1, [16, 32], 0), (2, 2, [16, 32], 0), (2, 4, [16, 32], 0), (2, 128, [24, 40, 48], 8)]
 
 def mpSize (afi safi : Nat) : Option (List Nat × Nat) :=
   match mpNhLens.find? (fun e => e.1 == afi && e.2.1 == safi) with
@@ -225,7 +230,7 @@ def valOutcome (fx : Fix) (xp : XP) (code : Nat) (v : Bytes) : VOut :=
   if code = 1 then (if v.length ≠ 1 then .valueError else if v.getD 0 0 > 2 then .valueError else .ok)
   else if code = 2 then
     (if v.isEmpty then .ok else if exaSegs fx.seg0 xp.p.asn4 v.length v then .ok else .notify 3 11)
-  else if code = 3 then (if v.length = 4 ∨ v.length = 0 ∨ (v.length = 16 ∧ fx.nh4 = false) then .ok else .valueError)
+  else if code = 3 then (if v.length = 4 ∨ v.length = 0 then .ok else .valueError)
   else if code = 4 ∨ code = 5 ∨ code = 9 then (if v.length ≠ 4 then .valueError else .ok)
   else if code = 6 then (if v.isEmpty then .ok else .valueError)
   else if code = 7 then (if v.length ≠ (if xp.p.asn4 then 8 else 6) then .valueError else .ok)
@@ -257,7 +262,7 @@ deriving DecidableEq, Repr
 
 /-- `present` = the keys of `self` (codes added so far). -/
 def decide1 (fx : Fix) (tb : List Row) (xp : XP) (present : List Nat) (t : Tlv) : Dec :=
-  if fx.overrun && t.overrun then .taw
+  if t.overrun then .taw
   else match rowOf tb t.code with
   | none =>
     if present.contains t.code then .drop
@@ -274,7 +279,7 @@ def decide1 (fx : Fix) (tb : List Row) (xp : XP) (present : List Nat) (t : Tlv) 
     else
       if row.treatAsWithdraw then .taw
       else if row.discard then .drop
-      else if fx.flagCls then .notify 3 4 else .drop
+      else .notify 3 4
 
 /-- An attribute in the resulting collection. `merged`: the AS_PATH that `merge_attributes` rebuilt from
     AS_PATH and AS4_PATH (its content is outside this model). -/
@@ -322,10 +327,12 @@ def loop (fx : Fix) (tb : List Row) (xp : XP) : List Tlv → LoopSt → Except F
 
 def hasKept (ks : List Kept) (c : Nat) : Bool := ks.any (fun k => k.code == c)
 
-/-- `AttributeCollection.unpack` after the loop: nothing more on treat-as-withdraw; otherwise AS_PATH and
-    AS4_PATH are replaced by one merged AS_PATH, re-inserted at the end. -/
-def postLoop (st : LoopSt) : LoopSt :=
+/-- `AttributeCollection.unpack` after the loop: nothing more on treat-as-withdraw; on a 4-octet session
+    AS4_PATH is dropped (RFC 6793 §4.1); on a 2-octet session AS_PATH and AS4_PATH are replaced by one merged
+    AS_PATH, re-inserted at the end. -/
+def postLoop (asn4 : Bool) (st : LoopSt) : LoopSt :=
   if st.taw then st
+  else if asn4 then { st with kept := st.kept.filter (fun k => k.code != 17) }
   else if hasKept st.kept 2 && hasKept st.kept 17 then
     { st with kept := st.kept.filter (fun k => k.code != 2 && k.code != 17) ++
         [{ code := 2, flag := 64, val := [], merged := true }] }
@@ -337,7 +344,7 @@ def initSt : LoopSt := { kept := [], taw := false, disc := false }
 def blockAttrs (fx : Fix) (tb : List Row) (xp : XP) (ts : List Tlv) (cut : Bool) : Except Fail LoopSt :=
   match loop fx tb xp ts initSt with
   | .error e => .error e
-  | .ok st => .ok (postLoop { st with taw := st.taw || cut })
+  | .ok st => .ok (postLoop xp.p.asn4 { st with taw := st.taw || cut })
 
 /-- The whole attribute block. -/
 def parseBlock (fx : Fix) (tb : List Row) (xp : XP) (blk : Bytes) : Except Fail LoopSt :=
@@ -392,9 +399,9 @@ deriving DecidableEq, Repr
 /-- The routes the UPDATE carries as reachable: the NLRI field and the MP_REACH_NLRI. -/
 def Parts.nlri (pt : Parts) : List Route := pt.ann4 ++ pt.annMp
 
-/-- What `_parse_payload` makes of it. Unrepaired, the treat-as-withdraw marker changes nothing here (F5). -/
-def assemble (fx : Fix) (pt : Parts) : Rep :=
-  if fx.assemble && pt.st.taw then
+/-- What `_parse_payload` makes of it: a marked UPDATE announces nothing and withdraws every route it carries. -/
+def assemble (pt : Parts) : Rep :=
+  if pt.st.taw then
     { announce := [], withdraw := pt.wd4 ++ pt.wdMp ++ pt.nlri,
       attrs := reportedAttrs pt.st, taw := pt.st.taw, disc := pt.st.disc }
   else
@@ -445,7 +452,7 @@ def decodeWith (fx : Fix) (tb : List Row) (xp : XP) (body : Bytes) : Except Fail
   if eorFast body then .ok emptyRep
   else match decodeParts fx tb xp body with
     | .error e => .error e
-    | .ok pt => .ok (assemble fx pt)
+    | .ok pt => .ok (assemble pt)
 
 /-- The model of the code as it is, on the generated table. -/
 def decodeExa (xp : XP) (body : Bytes) : Except Fail Rep :=
@@ -491,12 +498,10 @@ def TableOk (tb : List Row) : Prop :=
 
 instance (tb : List Row) : Decidable (TableOk tb) := by unfold TableOk; exact inferInstance
 
-/-- The occurrence does not fall into one of the holes a repair closes: with the repair switched on the
-    clause is true, without it it excludes exactly the inputs the hole lets through. -/
-def GapFree (fx : Fix) (tb : List Row) (xp : XP) (t : Tlv) : Prop :=
-  (fx.overrun = true ∨ t.overrun = false) ∧
-  (valOutcome fx xp t.code t.val = .ok → valOutcome allFix xp t.code t.val = .ok) ∧
-  (fx.flagCls = true ∨ ∀ row, rowOf tb t.code = some row → registered tb t.code (effFlag tb t) = false →
-      row.treatAsWithdraw = true ∨ row.discard = true)
+/-- The occurrence does not fall into the hole the open repair closes: whatever the value decoder of the tree
+    accepts, the repaired one accepts too. True for every occurrence when `fx = allFix`; for the code as it is it
+    excludes exactly the AS_PATH / AS4_PATH values accepted only because an empty segment is let through (C08b). -/
+def GapFree (fx : Fix) (xp : XP) (t : Tlv) : Prop :=
+  valOutcome fx xp t.code t.val = .ok → valOutcome allFix xp t.code t.val = .ok
 
 end Exa.Attr7606
